@@ -608,3 +608,20 @@ def h_partial(ip, st, args, kw, node):
 
 
 HANDLERS['functools.partial'] = h_partial
+
+
+def _h_anyall(name):
+    def h(ip, st, a, kw, node):
+        x = a[0] if a else Tup([])
+        if isinstance(x, Tup) and 1 <= len(x) <= 8 and not kw and all(isinstance(i, (Poly, Const)) for i in x.items):
+            # any([p, q]) is p or q ; all([p, q]) is p and q
+            if all(isinstance(i, Const) and isinstance(i.value, bool) for i in x.items):
+                vals = [i.value for i in x.items]
+                return Const(any(vals) if name == 'any' else all(vals))
+            return app('or' if name == 'any' else 'and', *[P(i) for i in x.items])
+        return app(name, P(x), **kw)
+    return h
+
+
+HANDLERS['any'] = _h_anyall('any')
+HANDLERS['all'] = _h_anyall('all')
